@@ -87,12 +87,10 @@ HeadOr0(q) == IF q = <<>> THEN 0 ELSE q[1]
 CbKinds == {"wacb", "wycb"}
 ResKinds == {"wares", "wyres"}
 
-\* createFutureImpl: status kNotStarted, refCount 2 (the handle + the queued OnceFunction); a callback
-\* future's functor captures the shared_ptr of its combinator block
+\* createFutureImpl: status kNotStarted, refCount 2 (the handle + the queued OnceFunction)
 Create(s, f) ==
   IF s.F[f].alive # 0 THEN Bad(s, "prog-recreate")
-  ELSE LET s1 == [s EXCEPT !.F[f] = [NoFut EXCEPT !.rc = 2, !.alive = 1]]
-       IN IF M[f].kind \in CbKinds THEN [s1 EXCEPT !.C[M[f].c].own = @ + 1] ELSE s1
+  ELSE [s EXCEPT !.F[f] = [NoFut EXCEPT !.rc = 2, !.alive = 1]]
 CreateReady(s, f, v) ==
   IF s.F[f].alive # 0 THEN Bad(s, "prog-recreate")
   ELSE [s EXCEPT !.F[f] = [NoFut EXCEPT !.st = 2, !.rc = 1, !.alive = 1, !.has = 1, !.val = v]]
